@@ -30,6 +30,9 @@ func (o agentOp) String() string {
 	case "stoperr":
 		return fmt.Sprintf("StopWithError(%s,custom)", agentIDName(o.ID))
 	case "process":
+		if o.H != 0 {
+			return fmt.Sprintf("Process(%s,class %d)", agentIDName(o.ID), o.H)
+		}
 		return fmt.Sprintf("Process(%s)", agentIDName(o.ID))
 	case "collect":
 		return fmt.Sprintf("Collect(t%d)", o.T)
@@ -39,7 +42,12 @@ func (o agentOp) String() string {
 	return "Close()"
 }
 
-func agentIDName(i int) string { return string(rune('A' + i)) }
+func agentIDName(i int) string {
+	if i >= 4 {
+		return fmt.Sprintf("X%d", i)
+	}
+	return string(rune('A' + i))
+}
 
 func agentID(i int) (id [12]byte) {
 	// ids that collide as hard as possible: differ in one bit of byte 0 / byte 11
@@ -51,6 +59,10 @@ func agentID(i int) (id [12]byte) {
 		id[11] ^= 0x80
 	case 3:
 		id[5] ^= 0xff
+	}
+	if i >= 4 {
+		id[6], id[7] = byte(i), byte(i>>8)
+		id[8] = 0x77
 	}
 	return
 }
@@ -77,6 +89,8 @@ func agentAlphabet() []agentOp {
 	for id := 0; id < 4; id++ {
 		ops = append(ops, agentOp{Kind: "process", ID: id})
 	}
+	// the class of the processed message must not matter: indication, success and error responses
+	ops = append(ops, agentOp{Kind: "process", ID: 0, H: 1}, agentOp{Kind: "process", ID: 1, H: 2}, agentOp{Kind: "process", ID: 2, H: 3})
 	for t := 1; t <= 5; t++ {
 		ops = append(ops, agentOp{Kind: "collect", T: t})
 	}
@@ -110,6 +124,11 @@ func retName(err error) string {
 func idName(id [12]byte) string {
 	for i := 0; i < 4; i++ {
 		if id == agentID(i) {
+			return agentIDName(i)
+		}
+	}
+	if id[8] == 0x77 {
+		if i := int(id[6]) | int(id[7])<<8; i >= 4 && id == agentID(i) {
 			return agentIDName(i)
 		}
 	}
@@ -173,7 +192,7 @@ func (r *agentRun) apply(op agentOp) (key, detail string) {
 		err = r.a.StopWithError(id, errCustomStop)
 		wantRet, wantEv = r.model.Stop(name, "custom")
 	case "process":
-		r.curMsg = &stun.Message{TransactionID: id}
+		r.curMsg = &stun.Message{TransactionID: id, Type: stun.NewType(stun.MethodBinding, stun.MessageClass(op.H))}
 		err = r.a.Process(r.curMsg)
 		wantRet, wantEv = r.model.Process(name, "the-message")
 	case "collect":
